@@ -21,7 +21,7 @@ import (
 // (numbers under numeric operators, booleans under and/or/not, strings under $), integers small
 // enough that all arithmetic stays in exact integers, divisors non-zero and dividing exactly.
 
-// v30ctx is the harness Context: three identifiers.
+// v30ctx is the harness Context: the identifiers and their values.
 type v30ctx struct {
 	names []string
 	vals  []Value
@@ -55,7 +55,6 @@ func (o v30opd) expr() Expr {
 var v30names = []string{"w", "x", "y", "z"}
 
 // v30operands: n operands, each literal or identifier (forked), values supplied by mk.
-// Identifier i is named v30names[i] unless alias says otherwise.
 func v30operands(n int, mk func(i int) Value) ([]v30opd, *v30ctx) {
 	ops := make([]v30opd, n)
 	ctx := &v30ctx{}
@@ -119,9 +118,10 @@ func v30normalizeProducts() {}
 // multiplier (the first operand if there is none) is a multiple of the product of the literal
 // divisors; m below is the free factor of a multiplier.
 // quick: all values and results are small ints. thorough: also sums of 2..3 integers up to 10^12
-// (SuInt64 representation).
+// (SuInt64 representation); products of four operands have no divisors (the solver is too slow
+// on the four-operand division shapes).
 //
-//symgo:harness prop=C30 tier=quick arith=int shards=2 tshards=16 timeout=300 ttimeout=1700 qtimeout=20000 bounds=n-ary_+_-_and_*_/_with_2..3_(thorough_4)_operands,_each_a_literal_or_an_identifier;+_-:_integers_|v|<=8000_(thorough_also_|v|<=10^12_with_2..3_operands);*_/:_multipliers_m*(divisors_they_carry)_|m|<=9,_divisors_1<=|d|<=3;all_divisions_exact_by_construction outside=decimals_and_inexact_division;zero_divisors;ill-typed_operands;integers_beyond_the_stated_ranges
+//symgo:harness prop=C30 tier=quick arith=int shards=2 tshards=16 timeout=300 ttimeout=1700 qtimeout=20000 bounds=n-ary_+_-_and_*_/_with_2..3_operands_(thorough_also_+_-_and_*_with_4),_each_a_literal_or_an_identifier;+_-:_integers_|v|<=8000_(thorough_also_|v|<=10^12_with_2..3_operands);*_/:_multipliers_m*(divisors_they_carry)_|m|<=9,_divisors_1<=|d|<=3;all_divisions_exact_by_construction outside=decimals_and_inexact_division;zero_divisors;ill-typed_operands;integers_beyond_the_stated_ranges
 func VerifC30FoldArith() {
 	maxN := 3
 	if rt.Thorough() {
@@ -175,7 +175,7 @@ func v30mul(maxN, mlim, dlim int) {
 	hasConstDiv := false
 	for i := range n {
 		isConst[i] = rt.Pick("const"+v30names[i], 2) == 1
-		inv[i] = i > 0 && rt.Pick("inv"+v30names[i], 2) == 1
+		inv[i] = i > 0 && n < 4 && rt.Pick("inv"+v30names[i], 2) == 1 // (four operands: multipliers only)
 		if inv[i] {
 			f[i] = v30int("v"+v30names[i], dlim)
 			rt.Assume(f[i] != 0)
